@@ -91,6 +91,25 @@ func TestVerifBounded_C10_Words(t *testing.T) {
 		if _, err := KmerOf(k, lookUp, strings.Repeat("a", k-1)+"n"); err == nil {
 			t.Fatalf("KmerOf accepts an invalid letter")
 		}
+		// words holding any byte that is not a letter of the alphabet (including bytes >= 0x80, which are not
+		// valid UTF-8 on their own, and multi-byte runes) are rejected, not a panic
+		for _, bad := range []string{"\xff", "\x80", "\xc3\xa9", "\x00", "~"} {
+			if len(bad) > k {
+				continue
+			}
+			w := strings.Repeat("a", k-len(bad)) + bad
+			cases++
+			func() {
+				defer func() {
+					if r := recover(); r != nil {
+						t.Fatalf("KmerOf(%q) panics: %v", w, r)
+					}
+				}()
+				if _, err := KmerOf(k, lookUp, w); err == nil {
+					t.Fatalf("KmerOf(%q) accepted", w)
+				}
+			}()
+		}
 	}
 	fmt.Printf("BOUNDED name=C10.words cases=%d nontrivial=%d exhaustive=true domain=%q\n", cases, nontrivial, fmt.Sprintf("all 4^k words for k in 4..%d (both cases), 400 seeded random words plus corner words for every k up to %d", maxK, MaxKmerLen))
 }
@@ -167,7 +186,7 @@ func TestVerifBounded_C10_Index(t *testing.T) {
 			}
 			// iteration over every sub-range visits exactly the valid windows in increasing order
 			if len(text) <= 6 {
-				for start := 0; start+k-1 <= len(text); start++ {
+				for start := 0; start <= len(text); start++ {
 					for end := start; end <= len(text); end++ {
 						var visited []int
 						err := ki.ForEachKmerOf(s, start, end, func(_ *Index, pos, _ int) { visited = append(visited, pos) })
